@@ -57,6 +57,29 @@ theorem loadFile_secure (beats : Beats) (uid owner pers : Nat) (s : LoadSt) (f :
   | none => simp [hst] at h
   | some st => simp [hst] at h; simp [h]
 
+/-- the dlopen log is the list of the files that pass the per-file tests, in enumeration order --
+    whatever the objects turn out to be -/
+theorem opened_eq (beats : Beats) (uid owner pers : Nat) (files : List File) :
+    (loadFilesG beats uid owner pers files).opened = (files.filter (secure uid owner)).map (·.fname) := by
+  have gen : ∀ (fs : List File) (s : LoadSt),
+      (fs.foldl (loadFileG beats uid owner pers) s).opened =
+        s.opened ++ (fs.filter (secure uid owner)).map (·.fname) := by
+    intro fs
+    induction fs with
+    | nil => intro s; simp
+    | cons f rest ih =>
+      intro s
+      simp only [List.foldl_cons]
+      rw [ih]
+      by_cases hs : secure uid owner f = true
+      · rw [loadFile_secure beats uid owner pers s f hs, loadObj_opened]
+        simp [List.filter_cons, hs]
+      · have hs' : secure uid owner f = false := by simpa using hs
+        rw [loadFile_insecure beats uid owner pers s f hs']
+        simp [List.filter_cons, hs']
+  have := gen files ⟨[], [], 0⟩
+  simpa [loadFilesG] using this
+
 /-- everything `register` can do -/
 inductive RegCase (beats : Beats) (pers : Nat) (mods : List Mod) (fname : Str) (d : Desc) :
     List Mod × Bool → Prop where
